@@ -345,6 +345,192 @@ Proof.
 Qed.
 End Piece.
 
+(* ---------- 2a. no lower bound on a: prepend knots (the bound k_{q+1} <= a above only serves the index
+   arithmetic of the continuity lemma) ---------- *)
+Section Shift.
+Variable k : nat -> R.
+Hypothesis Hk : sorted k.
+Variables (s : nat) (lo : R).
+Hypothesis Hlo : lo <= k 0%nat.
+
+Definition ksh (j : nat) : R := if (j <? s)%nat then lo - INR (s - j) else k (j - s)%nat.
+Lemma ksh_at j : ksh (s + j) = k j.
+Proof. unfold ksh. destruct (Nat.ltb_spec (s + j) s); [lia|]. f_equal. lia. Qed.
+Lemma ksh_sorted : sorted ksh.
+Proof.
+  intros i j Hij. unfold ksh. destruct (Nat.ltb_spec i s), (Nat.ltb_spec j s).
+  - pose proof (le_INR (s - j) (s - i) ltac:(lia)). lra.
+  - pose proof (pos_INR (s - i)). pose proof (Hk 0%nat (j - s)%nat ltac:(lia)). lra.
+  - lia.
+  - apply Hk. lia.
+Qed.
+Lemma B_ksh side q : forall i t, B side ksh q (s + i) t = B side k q i t.
+Proof.
+  induction q as [|q IH]; intros i t; cbn [B].
+  - replace (S (s + i)) with (s + S i)%nat by lia. rewrite !ksh_at. reflexivity.
+  - replace (s + i + q + 1)%nat with (s + (i + q + 1))%nat by lia.
+    replace (s + i + q + 2)%nat with (s + (i + q + 2))%nat by lia.
+    replace (s + i + 1)%nat with (s + (i + 1))%nat by lia.
+    rewrite !ksh_at, !IH. reflexivity.
+Qed.
+Lemma sumf_shift_n (f : nat -> R) : forall M i, sumf f (s + i) M = sumf (fun j => f (s + j)%nat) i M.
+Proof.
+  induction M as [|M IH]; intros i; cbn [sumf]; [reflexivity|].
+  replace (S (s + i)) with (s + S i)%nat by lia. rewrite IH. reflexivity.
+Qed.
+Lemma Aint_ksh side q i M t : Aint ksh side q (s + i) M t = Aint k side q i M t.
+Proof.
+  unfold Aint. replace (s + i + S q)%nat with (s + (i + S q))%nat by lia. rewrite !ksh_at. f_equal.
+  rewrite sumf_shift_n. apply sumf_ext. intros j _. apply B_ksh.
+Qed.
+End Shift.
+
+(* MAIN THEOREM, final form: sorted knots, any degree q >= 0, any multiplicities, any a < b up to the last knot used *)
+Theorem B_RInt_gen (k : nat -> R) (Hk : sorted k) q i M a b : a < b -> b <= k (i + M)%nat ->
+  is_RInt (fun t => B true k q i t) a b (Aint k false q i M b - Aint k true q i M a).
+Proof.
+  intros Hab Hb.
+  set (s := S (S q)). set (lo := Rmin (k 0%nat) a).
+  assert (Hlo : lo <= k 0%nat) by apply Rmin_l.
+  pose proof (ksh_sorted k Hk s lo Hlo) as HS.
+  assert (Ha : ksh k s lo (S q) <= a).
+  { unfold ksh, s. destruct (Nat.ltb_spec (S q) (S (S q))); [|lia].
+    replace (S (S q) - S q)%nat with 1%nat by lia. cbn [INR]. pose proof (Rmin_r (k 0%nat) a). fold lo in H0. lra. }
+  pose proof (B_RInt (ksh k s lo) HS q (s + i) M a b Ha Hab) as I.
+  replace (s + i + M)%nat with (s + (i + M))%nat in I by lia. rewrite ksh_at in I. specialize (I Hb).
+  rewrite !Aint_ksh in I.
+  apply (is_RInt_ext (fun t => B true (ksh k s lo) q (s + i) t)); [|exact I].
+  intros x _. apply B_ksh.
+Qed.
+Theorem Aint_continuous_gen (k : nat -> R) (Hk : sorted k) q i M x : x < k (i + M)%nat ->
+  Aint k true q i M x = Aint k false q i M x.
+Proof.
+  intros Hx.
+  set (s := S (S q)). set (lo := Rmin (k 0%nat) x - 1).
+  assert (Hlo : lo <= k 0%nat) by (unfold lo; pose proof (Rmin_l (k 0%nat) x); lra).
+  pose proof (ksh_sorted k Hk s lo Hlo) as HS.
+  rewrite <- !(Aint_ksh k s lo). apply (Aint_continuous _ HS). split.
+  - unfold ksh, s. destruct (Nat.ltb_spec (S q) (S (S q))); [|lia].
+    replace (S (S q) - S q)%nat with 1%nat by lia. cbn [INR]. unfold lo. pose proof (Rmin_r (k 0%nat) x). lra.
+  - replace (s + i + M)%nat with (s + (i + M))%nat by lia. rewrite ksh_at. exact Hx.
+Qed.
+
+(* ---------- 2b. corollaries: whole support, and the integrals of all functions add up to b - a ---------- *)
+Section Corollaries.
+Variable k : nat -> R.
+Hypothesis Hk : sorted k.
+
+(* a B-spline vanishes at the ends of its support unless the end knot fills the whole support *)
+Lemma B_left_end q : forall j, k j < k (j + q)%nat -> B true k q j (k j) = 0.
+Proof.
+  induction q as [|r IH]; intros j H.
+  - rewrite Nat.add_0_r in H. lra.
+  - cbn [B]. rewrite w_left. destruct (Rlt_dec (k j) (k (j + 1)%nat)) as [L|L].
+    + rewrite (B_support true k Hk r (j + 1) (k j)) by (unfold outside; left; exact L). ring.
+    + assert (E1 : k (j + 1)%nat = k j) by (pose proof (Hk j (j + 1)%nat ltac:(lia)); lra).
+      rewrite <- E1 at 3. rewrite (IH (j + 1)%nat).
+      * ring.
+      * replace (j + 1 + r)%nat with (j + S r)%nat by lia. lra.
+Qed.
+Lemma B_right_end q : forall j, k (j + 1)%nat < k (j + q + 1)%nat -> B false k q j (k (j + q + 1)%nat) = 0.
+Proof.
+  induction q as [|r IH]; intros j H.
+  - rewrite Nat.add_0_r in H. lra.
+  - cbn [B]. replace (j + S r + 1)%nat with (j + r + 2)%nat in * by lia.
+    rewrite (w_right (k (j + 1)%nat) (k (j + r + 2)%nat)) by exact H.
+    destruct (Rlt_dec (k (j + r + 1)%nat) (k (j + r + 2)%nat)) as [L|L].
+    + rewrite (B_support false k Hk r j (k (j + r + 2)%nat)) by (unfold outside; right; exact L). ring.
+    + assert (E1 : k (j + r + 2)%nat = k (j + r + 1)%nat) by (pose proof (Hk (j + r + 1)%nat (j + r + 2)%nat ltac:(lia)); lra).
+      rewrite E1 at 2. rewrite (IH j) by lra. ring.
+Qed.
+
+(* partition of unity with a fixed index range *)
+Lemma partition_window side q lo len m t : (q <= m)%nat -> (lo <= m - q)%nat -> (S m <= lo + len)%nat ->
+  in_span side (k m) (k (S m)) t -> sumf (fun i => B side k q i t) lo len = 1.
+Proof.
+  intros Hq Hlo Hhi Hs.
+  replace len with ((m - q - lo) + (S q + (lo + len - S m)))%nat by lia.
+  rewrite !sumf_app.
+  rewrite (sumf_zero _ lo (m - q - lo)).
+  2:{ intros i Hi. apply B_support; [exact Hk|]. apply (span_out_hi side k Hk m); [exact Hs|lia]. }
+  rewrite (sumf_zero _ (lo + (m - q - lo) + S q)).
+  2:{ intros i Hi. apply B_support; [exact Hk|]. apply (span_out_lo side k Hk m); [exact Hs|lia]. }
+  replace (lo + (m - q - lo))%nat with (m - q)%nat by lia.
+  rewrite (partition_unity side k Hk q m t Hq Hs). ring.
+Qed.
+
+(* the integral over the whole support (for a basis function with non-empty support) *)
+Theorem B_RInt_support q i : k (S q) <= k i -> k i < k (i + S q)%nat ->
+  is_RInt (fun t => B true k q i t) (k i) (k (i + S q)%nat) ((k (i + S q)%nat - k i) / INR (S q)).
+Proof.
+  intros Hd Hlt.
+  pose proof (B_RInt k Hk q i (S q) (k i) (k (i + S q)%nat) Hd Hlt (Rle_refl _)) as I.
+  apply (is_RInt_val _ _ _ _ _ I). unfold Aint.
+  (* right-continuous value at the left end: every term vanishes *)
+  rewrite (sumf_zero (fun j => B true k (S q) j (k i))).
+  2:{ intros j Hj. destruct (Rlt_dec (k i) (k j)) as [L|L].
+      - apply B_support; [exact Hk|]. unfold outside. left. exact L.
+      - assert (Ej : k j = k i) by (pose proof (Hk i j ltac:(lia)); lra).
+        rewrite <- Ej. apply B_left_end. pose proof (Hk (i + S q)%nat (j + S q)%nat ltac:(lia)). lra. }
+  (* left-continuous value at the right end: partition of unity on the span before it *)
+  assert (Hiq : (S q < i + S q)%nat) by (apply (sorted_lt_idx k Hk); lra).
+  set (c := k (i + S q)%nat) in *.
+  destruct (find_span_left k c (i + S q - S q - 1) (S q)) as (m & Hm & Hs).
+  { replace (S q + S (i + S q - S q - 1))%nat with (i + S q)%nat by lia.
+    fold c. split; [lra|apply Rle_refl]. }
+  assert (Him : (i < S m)%nat) by (apply (sorted_lt_idx k Hk); lra).
+  assert (P1 : sumf (fun j => B false k (S q) j c) (m - S q) (S (S q)) = 1).
+  { apply (partition_window false (S q) _ _ m c); try lia. unfold in_span. exact Hs. }
+  assert (Z1 : sumf (fun j => B false k (S q) j c) (m - S q) (i - (m - S q)) = 0).
+  { apply sumf_zero. intros j Hj.
+    assert (Ec : k (j + S q + 1)%nat = c).
+    { pose proof (Hk (S m) (j + S q + 1)%nat ltac:(lia)). pose proof (Hk (j + S q + 1)%nat (i + S q)%nat ltac:(lia)).
+      unfold c in *. lra. }
+    rewrite <- Ec. apply B_right_end. rewrite Ec.
+    pose proof (Hk (j + 1)%nat i ltac:(lia)). lra. }
+  assert (Z2 : sumf (fun j => B false k (S q) j c) (S m) (i + S q - S m) = 0).
+  { apply sumf_zero. intros j Hj. apply B_support; [exact Hk|]. unfold outside. left.
+    pose proof (Hk (S m) j ltac:(lia)). lra. }
+  assert (S1 : sumf (fun j => B false k (S q) j c) i (S q) = 1).
+  { pose proof (sumf_app (fun j => B false k (S q) j c) i (S m - i) (i + S q - S m)) as A1.
+    replace (S m - i + (i + S q - S m))%nat with (S q) in A1 by lia.
+    replace (i + (S m - i))%nat with (S m) in A1 by lia. rewrite Z2 in A1.
+    pose proof (sumf_app (fun j => B false k (S q) j c) (m - S q) (i - (m - S q)) (S m - i)) as A2.
+    replace (i - (m - S q) + (S m - i))%nat with (S (S q)) in A2 by lia.
+    replace (m - S q + (i - (m - S q)))%nat with i in A2 by lia.
+    rewrite Z1, P1 in A2. lra. }
+  rewrite S1. unfold c. ring.
+Qed.
+
+Lemma is_RInt_sumf (f : nat -> R -> R) (V : nat -> R) a c : forall n i0,
+  (forall i, (i0 <= i < i0 + n)%nat -> is_RInt (f i) a c (V i)) ->
+  is_RInt (fun t => sumf (fun i => f i t) i0 n) a c (sumf V i0 n).
+Proof.
+  induction n as [|n IH]; intros i0 H; cbn [sumf].
+  - apply (is_RInt_val _ _ _ _ _ (is_RInt_const_R a c 0)). ring.
+  - exact (is_RInt_plus _ _ _ _ _ _ (H i0 ltac:(lia)) (IH (S i0) (fun i Hi => H i ltac:(lia)))).
+Qed.
+
+(* the closed forms of all N functions add up to the length of the interval *)
+Theorem B_RInt_sum q N a c : k (S q) <= a -> a < c -> c <= k N ->
+  sumf (fun i => Aint k false q i (N - i) c - Aint k true q i (N - i) a) 0 N = c - a.
+Proof.
+  intros Ha Hac Hc.
+  assert (I1 : is_RInt (fun t => sumf (fun i => B true k q i t) 0 N) a c
+                 (sumf (fun i => Aint k false q i (N - i) c - Aint k true q i (N - i) a) 0 N)).
+  { apply (is_RInt_sumf (fun i t => B true k q i t)). intros i Hi. apply B_RInt; try assumption.
+    replace (i + (N - i))%nat with N by lia. exact Hc. }
+  assert (I2 : is_RInt (fun t => sumf (fun i => B true k q i t) 0 N) a c ((c - a) * 1)).
+  { apply (is_RInt_ext (fun _ => 1)); [|apply is_RInt_const_R].
+    intros x Hx. rewrite Rmin_left, Rmax_right in Hx by lra. symmetry.
+    assert (L1 : (S q < N)%nat) by (apply (sorted_lt_idx k Hk); lra).
+    destruct (find_span_right k x (N - S q - 1) (S q)) as (m & Hm & Hs).
+    { replace (S q + S (N - S q - 1))%nat with N by lia. lra. }
+    apply (partition_window true q 0 N m x); try lia. unfold in_span. exact Hs. }
+  rewrite <- (is_RInt_unique _ _ _ _ I1), (is_RInt_unique _ _ _ _ I2). ring.
+Qed.
+End Corollaries.
+
 (* ---------- 3. the model: BSplineBasis.integrate returns these integrals ---------- *)
 From SplipyModel Require Import Model.Num Model.BasisDef Model.BasisEval Model.Tensor Model.Obj Model.Measure
   Proofs.Bridge Proofs.KnotList Proofs.SpanCorrect Proofs.EvaluateSpec Proofs.EvalConsequences
@@ -474,46 +660,52 @@ Proof. unfold K', en, b_end. rewrite kext_S. reflexivity. Qed.
 (* one evaluation row of the integration basis *)
 Definition side_at (t : R) : bool := negb (Rltb (Rabs (t - en)) tol).
 
-Lemma row_at t : st <= t <= en -> @snap1 R NumR kl tol t = t ->
+Definition sn (t : R) : R := @snap1 R NumR kl tol t.
+
+Lemma row_at t : st <= sn t <= en ->
   let N := hd [] (@basis_evaluate R NumR (kext kl) (S p) 0 tol 0 true [t]) in
-  length N = S n /\ forall j, (j < S n)%nat -> nth j N 0 = B (side_at t) K' p j t.
+  length N = S n /\ forall j, (j < S n)%nat -> nth j N 0 = B (side_at (sn t)) K' p j (sn t).
 Proof.
-  intros Ht Hsn. cbv zeta.
+  intros Ht. cbv zeta.
   destruct tie_facts as (HK & Hp & Hlen & Hn & Hd & Hne).
   pose proof (kext_sorted kl Hne HK) as HK'.
   assert (Hlen' : (2 * S p <= length (kext kl))%nat) by (rewrite kext_length; lia).
   assert (En : (length (kext kl) - S p = S n)%nat) by (rewrite kext_length; unfold n; lia).
   pose proof (basis_evaluate_spec (kext kl) (S p) 0 HK' ltac:(lia) Hlen' tol Htol 0 true [t] 0 ltac:(cbn; lia)) as ES.
   cbv zeta in ES. cbn [nth] in ES.
-  rewrite (snap1_vals (kext kl) kl tol t HK' HK (kext_vals kl Hne)), Hsn in ES.
+  rewrite (snap1_vals (kext kl) kl tol t HK' HK (kext_vals kl Hne)) in ES. fold (sn t) in ES.
   cbn [Nat.leb] in ES.
-  rewrite (normalise_nonper (kext kl) (S p) tol t Htol) in ES.
+  rewrite (normalise_nonper (kext kl) (S p) tol (sn t) Htol) in ES.
   2:{ rewrite En. replace (S p - 1)%nat with p by lia. fold K'. rewrite K'_start, K'_end. exact Ht. }
   2:{ rewrite En. replace (S p - 1)%nat with p by lia. fold K'. rewrite K'_start, K'_end. exact Hd. }
-  rewrite En in ES. fold K' in ES. rewrite K'_end in ES. fold (side_at t) in ES.
+  rewrite En in ES. fold K' in ES. rewrite K'_end in ES. fold (side_at (sn t)) in ES.
   match goal with |- context[hd [] ?l] => assert (EH : hd [] l = nth 0 l []) by (destruct l; reflexivity) end.
   rewrite EH, ES. split.
   - rewrite ref_row_length. lia.
   - intros j Hj. rewrite (ref_row_entry (kext kl) (S p) 0) by lia.
-    rewrite En, Nat.sub_0_r. rewrite (sumf_pick (fun i => dB (side_at t) (@kn R NumR (kext kl)) 0 (S p - 1) i t)) by exact Hj.
+    rewrite En, Nat.sub_0_r. rewrite (sumf_pick (fun i => dB (side_at (sn t)) (@kn R NumR (kext kl)) 0 (S p - 1) i (sn t))) by exact Hj.
     cbn [dB]. replace (S p - 1)%nat with p by lia. reflexivity.
 Qed.
 
-(* the value returned by the model: difference of the closed form at the two (clamped) ends *)
-Lemma basis_integrate_entry t0 t1 i : st <= t0 <= en -> st <= t1 <= en ->
-  @snap1 R NumR kl tol t0 = t0 -> @snap1 R NumR kl tol t1 = t1 -> (i < n)%nat ->
+(* max(t0, start) and min(t1, end) of integrate() *)
+Definition clamp_lo (t : R) : R := if Rltb t st then st else t.
+Definition clamp_hi (t : R) : R := if Rltb en t then en else t.
+
+(* the value returned by the model: difference of the closed form at the two clamped and snapped ends *)
+Lemma basis_integrate_entry t0 t1 i :
+  let a := sn (clamp_lo t0) in let c := sn (clamp_hi t1) in
+  st <= a <= en -> st <= c <= en -> (i < n)%nat ->
   nth i (@basis_integrate R NumR tol b t0 t1) 0
-  = Aint K' (side_at t1) (p - 1) (S i) (n - i) t1 - Aint K' (side_at t0) (p - 1) (S i) (n - i) t0.
+  = Aint K' (side_at c) (p - 1) (S i) (n - i) c - Aint K' (side_at a) (p - 1) (S i) (n - i) a.
 Proof.
-  intros H0 H1 S0 S1 Hi.
+  cbv zeta. intros H0 H1 Hi.
   destruct tie_facts as (HK & Hp & Hlen & Hn & Hd & Hne).
   unfold basis_integrate. cbv zeta. rewrite Hper. cbn [Nat.eqb].
-  fold st en kl p. cbn [nltb NumR].
-  destruct (Rltb_spec t0 st) as [X|_]; [lra|]. destruct (Rltb_spec en t1) as [X|_]; [lra|].
+  fold st en kl p. cbn [nltb NumR]. fold (clamp_lo t0) (clamp_hi t1).
   change (hd (@n0 R NumR) kl :: kl ++ [last kl (@n0 R NumR)]) with (kext kl).
-  destruct (row_at t0 H0 S0) as [L0 E0]. destruct (row_at t1 H1 S1) as [L1 E1]. cbv zeta in L0, E0, L1, E1.
-  set (N0 := hd [] (@basis_evaluate R NumR (kext kl) (S p) 0 tol 0 true [t0])) in *.
-  set (N1 := hd [] (@basis_evaluate R NumR (kext kl) (S p) 0 tol 0 true [t1])) in *.
+  destruct (row_at _ H0) as [L0 E0]. destruct (row_at _ H1) as [L1 E1]. cbv zeta in L0, E0, L1, E1.
+  set (N0 := hd [] (@basis_evaluate R NumR (kext kl) (S p) 0 tol 0 true [clamp_lo t0])) in *.
+  set (N1 := hd [] (@basis_evaluate R NumR (kext kl) (S p) 0 tol 0 true [clamp_hi t1])) in *.
   rewrite L0. replace (S n - 1)%nat with n by lia.
   rewrite (nth_map_gen _ _ i 0 0%nat) by (rewrite seq_length; exact Hi).
   rewrite seq_nth by exact Hi.
@@ -530,6 +722,7 @@ Qed.
 Definition Afin (i : nat) (t : R) : R :=
   if Req_EM_T t en then Aint K' false (p - 1) (S i) (n - i) t else Aint K' true (p - 1) (S i) (n - i) t.
 
+(* the side chosen by evaluate() (left within the tolerance of the end) does not matter: the closed form is continuous *)
 Lemma side_value i t : (i < n)%nat -> st <= t <= en -> Aint K' (side_at t) (p - 1) (S i) (n - i) t = Afin i t.
 Proof.
   intros Hi Ht. destruct tie_facts as (HK & Hp & Hlen & Hn & Hd & Hne).
@@ -556,35 +749,145 @@ Proof.
   rewrite (Aint_continuous K' HK' (p - 1) (S i) (n - i) c) by lra. reflexivity.
 Qed.
 
-(* MODEL TIE: every entry of integrate(t0, t1) is the Riemann integral of the corresponding basis function, for
-   both parameters inside the domain and not moved by the snapping (in either order) *)
+(* the basis functions of b are those of the extended knot vector, shifted by one *)
+Lemma B_kext q i t : B true K' q (S i) t = B true K q i t.
+Proof. rewrite <- B_shift. apply B_ext. intros j _. apply kext_S. Qed.
+
+(* MODEL TIE, general form: every entry of integrate(t0, t1) is the Riemann integral of the corresponding basis
+   function between the clamped and snapped parameters (in either order) *)
+Theorem basis_integrate_is_RInt_snapped t0 t1 i :
+  let a := sn (clamp_lo t0) in let c := sn (clamp_hi t1) in
+  st <= a <= en -> st <= c <= en -> (i < n)%nat ->
+  is_RInt (fun t => B true K (p - 1) i t) a c (nth i (@basis_integrate R NumR tol b t0 t1) 0).
+Proof.
+  cbv zeta. intros H0 H1 Hi.
+  rewrite (basis_integrate_entry t0 t1 i H0 H1 Hi), !side_value by assumption.
+  apply (is_RInt_ext (fun t => B true K' (p - 1) (S i) t)).
+  { intros x _. apply B_kext. }
+  destruct (Rtotal_order (sn (clamp_lo t0)) (sn (clamp_hi t1))) as [L|[->|G]].
+  - apply Afin_RInt; try lra; exact Hi.
+  - replace (_ - _) with 0 by ring. apply is_RInt_point_R.
+  - apply (is_RInt_val _ _ _ _ _ (is_RInt_swap_R _ _ _ _ (Afin_RInt i (sn (clamp_hi t1)) (sn (clamp_lo t0)) Hi ltac:(lra) G ltac:(lra)))). ring.
+Qed.
+
+(* MODEL TIE: parameters inside the domain that the snapping does not move (knots, or at least tol away from every knot) *)
 Theorem basis_integrate_is_RInt t0 t1 i : st <= t0 <= en -> st <= t1 <= en ->
-  @snap1 R NumR kl tol t0 = t0 -> @snap1 R NumR kl tol t1 = t1 -> (i < n)%nat ->
+  sn t0 = t0 -> sn t1 = t1 -> (i < n)%nat ->
   is_RInt (fun t => B true K (p - 1) i t) t0 t1 (nth i (@basis_integrate R NumR tol b t0 t1) 0).
 Proof.
   intros H0 H1 S0 S1 Hi.
-  rewrite (basis_integrate_entry t0 t1 i H0 H1 S0 S1 Hi), !side_value by assumption.
-  apply (is_RInt_ext (fun t => B true K' (p - 1) (S i) t)).
-  { intros x _. rewrite <- B_shift. apply B_ext. intros j _. apply kext_S. }
-  destruct (Rtotal_order t0 t1) as [L|[->|G]].
-  - apply Afin_RInt; lra.
-  - replace (_ - _) with 0 by ring. apply is_RInt_point_R.
-  - apply (is_RInt_val _ _ _ _ _ (is_RInt_swap_R _ _ _ _ (Afin_RInt i t1 t0 Hi ltac:(lra) G ltac:(lra)))). ring.
+  pose proof (basis_integrate_is_RInt_snapped t0 t1 i) as T. cbv zeta in T.
+  unfold clamp_lo, clamp_hi in T.
+  destruct (Rltb_spec t0 st) as [X|_]; [lra|]. destruct (Rltb_spec en t1) as [X|_]; [lra|].
+  rewrite S0, S1 in T. apply T; assumption.
 Qed.
 
 Corollary basis_integrate_RInt t0 t1 i : st <= t0 <= en -> st <= t1 <= en ->
-  @snap1 R NumR kl tol t0 = t0 -> @snap1 R NumR kl tol t1 = t1 -> (i < n)%nat ->
+  sn t0 = t0 -> sn t1 = t1 -> (i < n)%nat ->
   nth i (@basis_integrate R NumR tol b t0 t1) 0 = RInt (fun t => B true K (p - 1) i t) t0 t1.
 Proof. intros. symmetry. apply is_RInt_unique. apply basis_integrate_is_RInt; assumption. Qed.
 
-Lemma basis_integrate_length t0 t1 : st <= t0 <= en -> st <= t1 <= en ->
-  @snap1 R NumR kl tol t0 = t0 -> length (@basis_integrate R NumR tol b t0 t1) = n.
+Lemma basis_integrate_length t0 t1 : st <= sn (clamp_lo t0) <= en ->
+  length (@basis_integrate R NumR tol b t0 t1) = n.
 Proof.
-  intros H0 H1 S0. unfold basis_integrate. cbv zeta. rewrite Hper. cbn [Nat.eqb].
-  fold st en kl p. cbn [nltb NumR].
-  destruct (Rltb_spec t0 st) as [X|_]; [lra|].
+  intros H0. unfold basis_integrate. cbv zeta. rewrite Hper. cbn [Nat.eqb].
+  fold st en kl p. cbn [nltb NumR]. fold (clamp_lo t0).
   change (hd (@n0 R NumR) kl :: kl ++ [last kl (@n0 R NumR)]) with (kext kl).
-  destruct (row_at t0 H0 S0) as [L0 _]. cbv zeta in L0.
+  destruct (row_at _ H0) as [L0 _]. cbv zeta in L0.
   rewrite map_length, seq_length, L0. lia.
 Qed.
 End Tie.
+
+(* a parameter at least tol away from every knot is not moved by snap() *)
+Lemma snap1_far (k : list R) tol t : sorted (@kn R NumR k) -> (forall v, In v k -> tol <= Rabs (v - t)) ->
+  @snap1 R NumR k tol t = t.
+Proof.
+  intros HK H.
+  destruct (snap1_case k tol t HK) as [(y & (Iy & _) & N & _) | [(_ & z & (Iz & _) & N & _) | (_ & _ & E1)]].
+  - specialize (H y Iy). unfold near in N. lra.
+  - specialize (H z Iz). unfold near in N. lra.
+  - exact E1.
+Qed.
+
+(* ---------- 4. non-vacuity ---------- *)
+Ltac rleb_true := repeat match goal with |- context [Rleb ?a ?b] => destruct (Rleb_spec a b); [|exfalso; lra] end.
+
+(* (a) spec level: the quadratic basis on [0,0,0,1,2,2,2] through the extended knots [0,0,0,0,1,2,2,2,2]; the
+   integral over the whole domain [0,2] crosses the knot 1 *)
+Example ex_spec_RInt i : (1 <= i <= 4)%nat ->
+  let k := @kn R NumR (kext [0; 0; 0; 1; 2; 2; 2]) in
+  is_RInt (fun t => B true k 2 i t) 0 2 (Aint k false 2 i (5 - i) 2 - Aint k true 2 i (5 - i) 0).
+Proof.
+  intros Hi. cbv zeta.
+  assert (HK : sorted (@kn R NumR (kext [0; 0; 0; 1; 2; 2; 2]))).
+  { apply kn_sorted. cbn [kext hd app last Knots.sorted_list nleb NumR]. rleb_true. reflexivity. }
+  apply (B_RInt _ HK 2 i (5 - i) 0 2).
+  - unfold kn, kext. cbn [hd app last nth]. lra.
+  - lra.
+  - replace (i + (5 - i))%nat with 5%nat by lia. unfold kn, kext. cbn [hd app last nth]. lra.
+Qed.
+
+(* (b) model level, simple interior knot *)
+Definition ex_b3 : basis R := mkBasis 3 [0; 0; 0; 1; 2; 2; 2] 0.
+Lemma ex_b3_wf : wf_basis_R (1/100) ex_b3.
+Proof.
+  unfold wf_basis_R, ex_b3. cbn [b_knots b_order b_per1]. split.
+  - apply kn_sorted. cbn [Knots.sorted_list nleb NumR]. rleb_true. reflexivity.
+  - unfold b_nfun, b_end, b_start, kn. cbn [b_knots b_order b_per1 length Nat.sub nth].
+    split; [lia|split; [lia|split; [lia|lra]]].
+Qed.
+Example ex_model_RInt i : (i < 4)%nat ->
+  is_RInt (fun t => B true (@kn R NumR [0; 0; 0; 1; 2; 2; 2]) 2 i t) (1/2) 2
+          (nth i (@basis_integrate R NumR (1/100) ex_b3 (1/2) 2) 0).
+Proof.
+  intros Hi.
+  pose proof ex_b3_wf as W. destruct W as (HK & _).
+  apply (basis_integrate_is_RInt (1/100) ex_b3 ex_b3_wf eq_refl ltac:(lra) (1/2) 2 i).
+  - unfold b_start, b_end, kn, ex_b3. cbn [b_knots b_order length Nat.sub nth]. lra.
+  - unfold b_start, b_end, kn, ex_b3. cbn [b_knots b_order length Nat.sub nth]. lra.
+  - unfold sn. apply snap1_far; [exact HK|]. cbn [b_knots ex_b3]. intros v Hv. cbn [In] in Hv.
+    destruct Hv as [<-|[<-|[<-|[<-|[<-|[<-|[<-|[]]]]]]]];
+      match goal with |- _ <= Rabs ?x => first [rewrite (Rabs_left x) by lra | rewrite (Rabs_right x) by lra] end; lra.
+  - unfold sn. cbn [b_knots ex_b3].
+    exact (snap1_knot [0; 0; 0; 1; 2; 2; 2] HK (1/100) ltac:(lra) 4 ltac:(cbn; lia)).
+  - cbn [b_knots b_order ex_b3 length]. lia.
+Qed.
+
+(* (c) model level, an interior knot of full multiplicity (the basis itself jumps at 1): no multiplicity condition *)
+Definition ex_b3m : basis R := mkBasis 3 [0; 0; 0; 1; 1; 1; 2; 2; 2] 0.
+Lemma ex_b3m_wf : wf_basis_R (1/100) ex_b3m.
+Proof.
+  unfold wf_basis_R, ex_b3m. cbn [b_knots b_order b_per1]. split.
+  - apply kn_sorted. cbn [Knots.sorted_list nleb NumR]. rleb_true. reflexivity.
+  - unfold b_nfun, b_end, b_start, kn. cbn [b_knots b_order b_per1 length Nat.sub nth].
+    split; [lia|split; [lia|split; [lia|lra]]].
+Qed.
+Example ex_model_RInt_multiple i : (i < 6)%nat ->
+  is_RInt (fun t => B true (@kn R NumR [0; 0; 0; 1; 1; 1; 2; 2; 2]) 2 i t) (1/2) (3/2)
+          (nth i (@basis_integrate R NumR (1/100) ex_b3m (1/2) (3/2)) 0).
+Proof.
+  intros Hi.
+  pose proof ex_b3m_wf as W. destruct W as (HK & _).
+  assert (Far : forall t, t = 1/2 \/ t = 3/2 -> @snap1 R NumR [0; 0; 0; 1; 1; 1; 2; 2; 2] (1/100) t = t).
+  { intros t Ht. apply snap1_far; [exact HK|]. intros v Hv. cbn [In] in Hv.
+    destruct Ht as [-> | ->];
+    destruct Hv as [<-|[<-|[<-|[<-|[<-|[<-|[<-|[<-|[<-|[]]]]]]]]]];
+      match goal with |- _ <= Rabs ?x => first [rewrite (Rabs_left x) by lra | rewrite (Rabs_right x) by lra] end; lra. }
+  apply (basis_integrate_is_RInt (1/100) ex_b3m ex_b3m_wf eq_refl ltac:(lra) (1/2) (3/2) i).
+  - unfold b_start, b_end, kn, ex_b3m. cbn [b_knots b_order length Nat.sub nth]. lra.
+  - unfold b_start, b_end, kn, ex_b3m. cbn [b_knots b_order length Nat.sub nth]. lra.
+  - unfold sn. cbn [b_knots ex_b3m]. apply Far. left. reflexivity.
+  - unfold sn. cbn [b_knots ex_b3m]. apply Far. right. reflexivity.
+  - cbn [b_knots b_order ex_b3m length]. lia.
+Qed.
+
+Print Assumptions B_RInt.
+Print Assumptions B_RInt_gen.
+Print Assumptions Aint_continuous_gen.
+Print Assumptions Aint_continuous.
+Print Assumptions B_RInt_support.
+Print Assumptions B_RInt_sum.
+Print Assumptions basis_integrate_is_RInt_snapped.
+Print Assumptions basis_integrate_is_RInt.
+Print Assumptions basis_integrate_RInt.
+Print Assumptions ex_model_RInt_multiple.
